@@ -75,6 +75,10 @@ CLAIMS["C16"] = dict(ref="§5 C16", tech="TLA+ contracts of typed/raw/update reg
     text="For every wrapper and API the emulated register is preset, the compiled wrapper runs (debug+release) and every privileged instruction it executes traps; TLC checks that all instructions address the register the wrapper is named after (CR/DR number, MSR index in ECX), that the operand seen by the CPU (EDX:EAX, source register) is the value the contract prescribes - typed write = unmodelled bits of the previous content | given fields, raw write exact, read = modelled bits, update = read-modify-write, documented invalid STAR/XCR0 combinations rejected with no write instruction - and the return values. Found and fixed F8 (ApicBase::write).",
     note=TB_CPU + " Natively executing accesses (selector reads, FS/GS base, xgetbv, rflags, mxcsr) are compared with independent inline asm of the harness and limited to values ring 3 may load; FS::write_base is only exercised with the current base. SFMask/Pat/UCet/SCet/address MSR presets are restricted to contents the hardware can hold (the typed reads unwrap).")
 
+CLAIMS["C08"] = dict(ref="§5 C08", tech="TLA+ state machine of a page-table entry (Pte.tla) model-checked by TLC over all aligned addresses x all flag sets x all operation sequences at scaled width (MC_Pte); TLC trace validation (Trace_Pte.tla) of entry programs and of table slot access paths / raw bytes on the real types",
+    text="TLC explores the entry state machine at scaled width (every aligned address, every flag set, every sequence of set_addr/set_flags/set_unused) with ghost address/flags and checks independence, read-back, unused <=> zero, frame <=> present; on the real crate random entry programs log the raw u64 before/after each step and every getter, and a table is written at all 512 slots through each access path and read back through all paths and as raw little-endian bytes at offset 8i, with new/zero/is_empty/clone/default, size and alignment.",
+    note=TB_PURE)
+
 NA_DEFAULT = "check under construction in this session (planned in DESIGN.md section 5); not yet claimed"
 
 m = {
